@@ -43,7 +43,8 @@ def dict_blank(op):
 
 def judge(ck, runs, nmax=12):
     recfile = ck.scratch.path("qs.ndjson")
-    write_ndjson(recfile, [{"ev": r["ev"], "strict": 1 if r["h"].get("strict") else 0, "log": 1 if any(e["op"] == "log" for e in r["ev"]) else 0} for r in runs])
+    write_ndjson(recfile, [{"ev": r["ev"], "strict": 1 if r["h"].get("strict") else 0, "log": 1 if any(e["op"] == "log" for e in r["ev"]) else 0,
+                            "skip": r.get("skip", [])} for r in runs])
     cfg = ck.scratch.path("QSendTrace.cfg")
     # the monitor keeps 1..NMAX messages (numbered by first appearance): never fewer than the histories use
     nmax = max([nmax] + [max(e.get("n", 0) or 0, e.get("m", 0) or 0) for r in runs for e in r["ev"]])
@@ -55,6 +56,7 @@ def judge(ck, runs, nmax=12):
         m = re.match(r'"([^"]*)", (\d+)', why)
         name = m.group(1) if m else why
         detail = ""
+        runs[idx - 1]["raw_verdict"] = name              # exact text (used to pass over it in a second judgement, see own_after_others)
         if "|" in name:
             name, detail = name.split("|", 1)
         out.append((idx, name, int(m.group(2)) if m else 0, detail))
@@ -118,17 +120,44 @@ def confirmed(ck, h, why):
     return any(":".join(w.split(":")[:2]) == clause for _, w, _, _ in bad2)
 
 
+def own_after_others(ck, prop, run, accept=None):
+    """a history whose first objection belongs to another property and is not a recorded finding (the tree is broken in some way):
+    judge it again with that objection passed over - up to six times - and return the first objection that is this property's"""
+    r = dict(run)
+    skip = []
+    for _ in range(6):
+        if not r.get("raw_verdict"):
+            return None
+        skip.append(r["raw_verdict"])
+        r = dict(run, skip=list(skip))
+        r.pop("raw_verdict", None)
+        try:
+            bad2, _ = judge(ck, [r])
+        except Infra:
+            return None
+        if not bad2:
+            return None
+        _, why, pos, detail = bad2[0]
+        p = why.split(":")[0]
+        if p == prop or prop in ALSO.get(":".join(why.split(":")[:2]), ()) or (accept is not None and (p in accept or ":".join(why.split(":")[:2]) in accept)):
+            return why, pos, detail
+    return None
+
+
 def report(ck, prop, runs, bad, accept=None):
     """turn monitor verdicts into VIOLATION / KNOWN-FINDING, only for clauses of this property (or, for histories whose only
     unusual input belongs to this property, for the clause prefixes in `accept`)"""
     seen = set()
     other = {}
+    later = []            # histories cut short by an unexplained objection of another property
     for idx, why, pos, detail in bad:
         p = why.split(":")[0]
         if accept is not None and (p in accept or ":".join(why.split(":")[:2]) in accept):
             pass
         elif p != prop and prop not in ALSO.get(":".join(why.split(":")[:2]), ()):
             other[why] = other.get(why, 0) + 1
+            if not ck.kf.match(p, why + ":hist=x") and len(later) < 4:
+                later.append(idx)
             if os.environ.get("VERIF_DEBUG_VERDICTS"):
                 log("OTHER %s hist=%s pos=%d %s %s" % (why, runs[idx - 1]["h"].get("id"), pos, detail, [dict((k, v) for k, v in e.items() if v not in (0, "", []) and k not in ("b", "atab")) for e in runs[idx - 1]["ev"][max(0, pos - 8):pos]]))
             continue
@@ -149,6 +178,18 @@ def report(ck, prop, runs, bad, accept=None):
               "script": [list(x) for x in h["script"]], "outcomes": h.get("outcomes"), "kill": h.get("kill"), "fault": h.get("fault"), "lifetime": h.get("lifetime"),
               "messages": [{"body": m["body"].decode("latin1"), "sender": m["sender"].decode("latin1"), "rcpts": [x.decode("latin1") for x in m["rcpts"]]} for m in h["messages"]]}
         ck.violation(key, "history %s: event %d %s %s; last events: %s" % (h.get("id"), pos, why, detail, describe(r, pos, 6)), {"history": hj, "events": r["ev"][max(0, pos - 30):pos]})
+    # the tree is broken in a way another property's check reports; does this property's statement fail in the same history further on?
+    for idx in later:
+        r = runs[idx - 1]
+        got = own_after_others(ck, prop, r, accept)
+        if got:
+            why, pos, detail = got
+            h = r["h"]
+            if why in seen:
+                continue
+            seen.add(why)
+            ck.violation("%s:hist=%s" % (why, h.get("id")), "history %s: event %d %s %s (after an objection of another property, %s, was passed over); last events: %s"
+                         % (h.get("id"), pos, why, detail, r.get("raw_verdict"), describe(r, pos, 6)), {"history": {"id": h.get("id"), "seed": h.get("seed")}, "events": r["ev"][max(0, pos - 30):pos]})
     ck.cov["verdicts_of_other_properties_seen"] = other
     # a history is judged up to its first objection: objections that belong to another property end it early.  On the unchanged tree
     # the only ones expected are the recorded known findings; anything else is shown so that it gets looked at (it is either a
